@@ -116,6 +116,9 @@ class BaseSliver(ABC):
 
     def set_labels(self, lab: Labels) -> None:
         assert(lab is None or isinstance(lab, Labels))
+        if lab is not None:
+            # fields may have been assigned one by one since the object was built, check the values again
+            Labels(**(lab.to_dict() or {}))
         self.labels = lab
 
     def get_labels(self) -> Labels:
